@@ -1914,6 +1914,10 @@ def replace_pad_by_hw_pad(op: Operation, arch, nng) -> Operation:
             return op
 
         if op.type.is_avgpool_op():
+            if op.original_type != Op.AvgPool:
+                # An average pool that implements another operator (e.g. a QUANTIZE); the depthwise rewrite below,
+                # with its rounding mode, is only defined for genuine average pools
+                return op
             # For average pool, hardware padding can only be used if padding is 0 or kernel size / 2
             for pad, k_size in (
                 (left, k_w),
